@@ -82,6 +82,17 @@ Definition chunked_ok (n : nat) (fill : option K) (count : option nat)
   end.
 
 (* ---------------------------------------------------------------------- *)
+(* the Python type of the yielded groups (observed as a code: 0 = no group,
+   1 = list, 2 = tuple, 3 = str, 4 = bytes, 9 = mixed / anything else).
+   "concatenating the output of chunked gives back the input": for a str /
+   bytes input the chunks are str / bytes again (srck 3 / 4), lists otherwise;
+   windowed / pairwise "return tuples" and split "yields lists" (docstrings). *)
+Definition spec_group_type (expected : nat) (out : list (list K)) : nat :=
+  match out with [] => 0 | _ => expected end.
+Definition spec_chunk_type (srck : nat) : nat :=
+  if srck =? 3 then 3 else if srck =? 4 then 4 else 1.
+
+(* ---------------------------------------------------------------------- *)
 (* windowed / pairwise: exactly the contiguous length-n slices, in order;
    with a fill value one window per element, padded at the end              *)
 (* ---------------------------------------------------------------------- *)
@@ -220,6 +231,30 @@ Fixpoint is_subseq (s l : list K) : bool :=
   | _ :: _, [] => false
   | x :: s', y :: l' => if Nat.eqb x y then is_subseq s' l' else is_subseq s l'
   end.
+
+(* ---------------------------------------------------------------------- *)
+(* identity of the emitted items ("conserve elements": the helpers hand back
+   the very objects they were given, not equal stand-ins)                   *)
+(* ---------------------------------------------------------------------- *)
+(* an emitted item is observed as (token of its equality class, position in
+   src of the very object emitted - by `is` - or -1 when it is not one of the
+   input objects).  Only a fill value may be a foreign object. *)
+Definition item_ok (srcs : list K) (fill : option K) (it : K * Z) : bool :=
+  let '(cls, pos) := it in
+  if (pos <? 0)%Z then match fill with Some f => Nat.eqb cls f | None => false end
+  else (Z.to_nat pos <? length srcs) && Nat.eqb (nth (Z.to_nat pos) srcs 0) cls.
+
+(* positions (ignoring foreign fill items) strictly increase: order is kept
+   and no object is emitted twice *)
+Fixpoint increasing_from (prev : Z) (ps : list Z) : bool :=
+  match ps with
+  | [] => true
+  | p :: r => if (p <? 0)%Z then increasing_from prev r
+              else (prev <? p)%Z && increasing_from p r
+  end.
+
+Definition group_ids_ok (srcs : list K) (fill : option K) (g : list (K * Z)) : bool :=
+  forallb (item_ok srcs fill) g && increasing_from (-1) (map snd g).
 
 (* ---------------------------------------------------------------------- *)
 (* chunk_ranges                                                            *)
